@@ -47,6 +47,7 @@ DOCX_FEATURES = {
     "empty-table": "a table whose cells are all empty between two filled tables (twin: its first cell is filled)",
     "title-row-gridspan": "a table whose first row is one cell spanning (w:gridSpan) the three columns of the rows below (twin: three cells)",
     "cell-blank-paragraph": "a table cell with three paragraphs, the middle one empty (twin: two paragraphs)",
+    "nested-table-in-sdt": "a table inside a table cell, wrapped in a block-level content control (w:tc/w:sdt/w:sdtContent/w:tbl), followed by another table (twin: the inner table directly in the cell)",
     "nested-sdt": "block-level content controls nested in a group control, two and three levels deep, around paragraphs and a table (twin: the same blocks in single-level controls)",
 }
 PPTX_FEATURES = {
@@ -361,6 +362,16 @@ def _docx_feature(feature, twin, rng, tk, exp, unit, words, para, table, image_p
         exp.nested_tables = 2
         exp.tables_claimed = False
         return outer
+    if feature == "nested-table-in-sdt":
+        def inner():
+            t = table(2, 3)[0]
+            return t if twin else f'<w:sdt><w:sdtPr><w:alias w:val="tblcc"/></w:sdtPr><w:sdtContent>{t}</w:sdtContent></w:sdt>'
+        outer, ogrid = table(2, 2, nested=inner)
+        mid = para()
+        after, agrid = table(1, 2)
+        exp.nested_tables = 3          # outer, inner, and the table that follows: their number (and so their presence) is claimed
+        exp.tables_claimed = False
+        return outer + mid + after
     if feature == "textbox-nonempty-anchor":
         anchor = "" if twin else f"<w:r>{_wt(' '.join(words('b', 1, 1)))}</w:r>"
         pre = para() if twin else ""
